@@ -137,7 +137,11 @@ func (r *run) monitor(events []string, st *scheduler.VerifState, dump string) {
 				if kv["code"] == "1" && kv["tok"] == "0" && !m.cancelled {
 					// CANCELED is only produced for a task whose last operation has no waiting
 					// clients (operator kills in this harness never use that code)
-					r.failf("violation", "C03", "C03.leaver_harmless", "client %d is attached to operation %d but was told that the task was cancelled because it no longer has any waiting clients", c, op)
+					lp := "C03"
+					if currentProp == "C06" {
+						lp = "C06" // "... removed after the no-waiter timeout, cancelling the task if it was the last"
+					}
+					r.failf("violation", lp, "C03.leaver_harmless / C06.no_waiter_timeout", "client %d is attached to operation %d but was told that the task was cancelled because it no longer has any waiting clients", c, op)
 				}
 				payload := kv["code"] + "/" + kv["tok"]
 				tok, _ := strconv.Atoi(kv["tok"])
@@ -258,6 +262,42 @@ func (r *run) monitor(events []string, st *scheduler.VerifState, dump string) {
 		joined := strings.Join(events, ";")
 		if strings.Contains(joined, "an sel abandoned") && strings.Contains(joined, "msg c="+pf[2]+" ") {
 			r.failf("violation", "C03", "C03.do_not_cache_never_merged", "Execute of client %s has do_not_cache set but was attached to an existing task instead of getting its own", pf[2])
+		}
+	}
+	// C01: every uncompleted task is in exactly one place that the scheduler can still reach: its size
+	// class queue exists, and a queued task's operations sit in that queue's invocation tree
+	for i := range st.Tasks {
+		t := &st.Tasks[i]
+		if t.Stage == 4 {
+			continue
+		}
+		var q *scheduler.VerifSizeClassQueue
+		for k := range st.SizeClassQueues {
+			if c := &st.SizeClassQueues[k]; c.InstanceNamePrefix == t.InstanceNamePrefix && c.Platform == t.Platform && c.SizeClass == t.SizeClass {
+				q = c
+			}
+		}
+		if q == nil {
+			r.failf("violation", "C01", "C01.exactly_one_place", "the uncompleted task of operation %d (stage %d) belongs to a size class queue that no longer exists", opIndex(t.Operations[0].Name), t.Stage)
+			continue
+		}
+		if t.Stage == 2 {
+			queued := map[string]bool{}
+			var walk func(i *scheduler.VerifInvocation)
+			walk = func(i *scheduler.VerifInvocation) {
+				for _, o := range i.QueuedOperations {
+					queued[o] = true
+				}
+				for k := range i.Children {
+					walk(&i.Children[k])
+				}
+			}
+			walk(&q.RootInvocation)
+			for _, o := range t.Operations {
+				if !queued[o.Name] {
+					r.failf("violation", "C01", "C01.exactly_one_place", "operation %d of a QUEUED task is not queued in any invocation of its size class queue", opIndex(o.Name))
+				}
+			}
 		}
 	}
 	// C05: TerminateWorkers marks every registered worker that matches the pattern, whatever it is doing
